@@ -1,9 +1,16 @@
 /- Driver for C05: real qmail-smtpd blast() vs `dblast`/`hopsOf`; oracle = the line-based RFC
-   reference decoder. Input lines: `<chunk> <in> <A|S|E|T> <stored> <consumed> <hops>` -/
+   reference decoder, and (theorem C05_hops) the line-based hop count `HopCount.hopSpec` evaluated on the
+   hop count the implementation reported; (theorems C05_chunking*) the chunked loop `SmtpIO.sblast` run with the
+   harness's read plan as read script, and the chunk-independence oracle.
+   Input lines: `<plan> <stream> <A|S|E|T> <stored> <consumed> <hops> <ssin.p> <ssin.n> <nreads>` (plan: see Drv/SmtpPlan.lean;
+   `inp` below is the stream after the plan's pre-consumed prefix, i.e. what blast() has to decode) -/
 import Drv.Util
+import Drv.SmtpPlan
 import Nq.SmtpIn
+import Nq.SmtpIO
+import Nq.HopCount
 
-open Nq Nq.SmtpIn Drv
+open Nq Nq.SmtpIn Drv Drv.SmtpPlan
 
 def statusOf : DRes → String
   | .accepted _ _ => "A"
@@ -12,15 +19,16 @@ def statusOf : DRes → String
 
 def handle (st : Stats) (line : String) : IO Stats := do
   match fields line with
-  | [chunk, inh, status, storedh, consumedS, hopsS] =>
-    match unhex inh, unhex storedh with
-    | some inp, some stored =>
+  | [chunk, inh, status, storedh, consumedS, hopsS, pS, nS, nreadsS] =>
+    match unhex inh, unhex storedh, parsePlan chunk with
+    | some stream, some stored, some plan =>
+      let inp := stream.drop plan.skip
       let h := hashBytes inp
       let fresh := !st.seen.contains h
       let nontriv := inp.contains CR || inp.contains LF
       let mut st := { st with cases := st.cases + 1, seen := st.seen.insert h,
                               nontrivial := st.nontrivial + (if fresh && nontriv then 1 else 0) }
-      st := st.bump ("chunk" ++ chunk)
+      st := st.bump ("chunk" ++ plan.cls)
       st := st.bump ("status" ++ status)
       let model := dblast inp
       let agree := match status, model with
@@ -39,18 +47,52 @@ def handle (st : Stats) (line : String) : IO Stats := do
       -- property oracle on the implementation's behaviour: the independent reference decoder
       let spec := rfcDecode inp
       let ok := match status, spec with
-        | "A", .accepted body rest => body == stored && consumedS.toInt? == some (Int.ofNat (inp.length - rest.length))
+        | "A", .accepted body rest => body == stored && consumedS.toInt? == some (Int.ofNat (inp.length - rest.length)) &&
+            hopsS.toInt? == some (Int.ofNat (Nq.HopCount.hopSpec (inp.take (inp.length - rest.length))))
         | "S", .stray => true
         | "E", .incomplete => true
+        | "E", _ => plan.hasFail          -- C05_chunking_anyscript: a failing read() may end the session (die_read), nothing else
         | _, _ => false
       if !ok then
-        IO.println s!"ORACLE in={inh} chunk={chunk} impl={status} stored={storedh} consumed={consumedS} spec={statusOf spec}"
+        let sh := match spec with
+          | .accepted _ rest => s!" spec-hops={Nq.HopCount.hopSpec (inp.take (inp.length - rest.length))}"
+          | _ => ""
+        IO.println s!"ORACLE in={inh} chunk={chunk} impl={status} stored={storedh} consumed={consumedS} hops={hopsS} spec={statusOf spec}{sh}"
         st := { st with oracle := st.oracle + 1 }
+      /- ### chunked I/O (theorems C05_chunking, C05_chunking_anyscript, C05_chunking_ssin, C05_chunking_indep) -/
+      -- DISAGREE channel: the composed model `sblast` (substdio_get(1) over ssin, 1024-byte buffer) run with the harness's
+      -- read plan as the read script must do exactly what the implementation did, including the state `ssin` is left in
+      let script := plan.script (stream.length + 4)
+      let s0 := Nq.SmtpIO.istart 1024 stream script
+      let mres := match skipLoop (plan.skip + 2) s0 plan.skip with
+        | some s1 => Nq.SmtpIO.sblast s1
+        | none => .died
+      let cagree := match status, mres with
+        | "A", .accepted body s' =>
+            body == stored && consumedS.toInt? == some (Int.ofNat (inp.length - (s'.data ++ s'.src).length)) &&
+            pS.toNat? == some s'.p && nS.toNat? == some s'.n && nreadsS.toNat? == some (script.length - s'.rs.length)
+        | "S", .stray => true
+        | "E", .died => true
+        | _, _ => false
+      if !cagree then
+        let ms := match mres with
+          | .accepted body s' => s!"A {hex body} {inp.length - (s'.data ++ s'.src).length} p={s'.p} n={s'.n} nreads={script.length - s'.rs.length}"
+          | .stray => "S" | .died => "E"
+        IO.println s!"DISAGREE in={inh} chunk={chunk} chunked-model impl={status} {storedh} {consumedS} p={pS} n={nS} nreads={nreadsS} model={ms}"
+        st := { st with disagree := st.disagree + 1 }
+      -- ORACLE channel (C05_chunking_indep on the implementation's behaviour): every split of the same stream gives the same
+      -- verdict, stored bytes and consumed count (plans with a failing read are excluded: they may legitimately die)
+      if !plan.hasFail then
+        match ← checkSig h chunk s!"{status} {hashBytes stored} {stored.length} {consumedS}" with
+        | some first =>
+          IO.println s!"ORACLE in={inh} chunk={chunk} impl={status} stored={storedh} consumed={consumedS} chunking-dependent: differs from the run under plan {first}"
+          st := { st with oracle := st.oracle + 1 }
+        | none => pure ()
       if fresh && status == "A" && st.samples < 3 && inp.length ≥ 6 then
         IO.println s!"SAMPLE in={inh} chunk={chunk} status={status} stored={storedh} consumed={consumedS} hops={hopsS}"
         st := { st with samples := st.samples + 1 }
       return st
-    | _, _ => IO.println s!"DISAGREE unparsable line {line}"; return { st with disagree := st.disagree + 1 }
+    | _, _, _ => IO.println s!"DISAGREE unparsable line {line}"; return { st with disagree := st.disagree + 1 }
   | _ => IO.println s!"DISAGREE unparsable line {line}"; return { st with disagree := st.disagree + 1 }
 
 def main : IO Unit := runDriver handle
